@@ -181,6 +181,10 @@ def run(rep):
                   f'the fallback stage set is not the union of the stages of all entry points ({detail or (E.show(fb, maxdepth=5) if fb else None)})',
                   ok_detail='all entry points, stage table Vertex/Fragment/Compute (evaluated on model entry lists)')
     rep.analysed = {'top_level': [t[0] for t in tops]}
+    # "that set is the stages using the variable": the map consulted above is exact only if the stage walk is (C03's traversal, propagation and
+    # seeding rules, evaluated in the same run)
+    from common import include
+    include(rep, 'c03', ('C03.1', 'C03.2', 'C03.3'), 'stage-walk')
 
 
 def contains(t, sub):
